@@ -167,8 +167,10 @@ Theorem C11_every_operation_is_tight K h r o :
   forallb (fun a => negb (act_leaky a)) (compile_op K h r o) = true.
 Proof. exact (compile_op_tight K h r o). Qed.
 
-(* ALL histories of operations, copies (any route, any point), new instances, class mutations: roots stay pairwise separate and
-   every root that receives no operation keeps its sub-heap literally *)
+(* ALL histories of operations, copies (any route, any point), new instances, class mutations, and cross-object flows (a whole
+   series assigned from ANOTHER root's array: b.X = a.X; add_variable / a constructor's initial value taking another root's array):
+   roots stay pairwise separate and every root that receives no operation keeps its sub-heap literally - in particular the root
+   whose array was only READ *)
 Theorem C11_operation_history_independent K es s :
   roots_ok s -> forallb hevent_ok es = true ->
   roots_ok (run_hevents K s es) /\
